@@ -169,9 +169,18 @@ func runFrames(c *Ctx) {
 			continue
 		}
 		xid := resp.TransactionID
-		f := sn.next(500*time.Millisecond, func(b []byte) bool {
+		match := func(b []byte) bool {
 			return len(b) >= 50 && b[12] == 8 && b[13] == 0 && bytes.Equal(b[46:50], xid[:])
-		})
+		}
+		f := sn.next(500*time.Millisecond, match)
+		for try := 0; f == nil && try < 3; try++ {
+			// a packet socket may drop under load: hand the same reply over again before concluding
+			c.Count("frame:capture-retry")
+			if err := server.VerifSendEthernet(net.Interface{Index: lo.Index, Name: "lo", HardwareAddr: mac}, resp); err != nil {
+				break
+			}
+			f = sn.next(time.Second, match)
+		}
 		if f == nil {
 			c.vio("C15", "frame-not-emitted", "sendEthernet returned no error but no frame left on the interface", in)
 			continue
